@@ -6,9 +6,11 @@ package web
 
 import (
 	"bytes"
+	"encoding/base64"
 	"encoding/json"
 	"fmt"
 	"net/http"
+	"net/http/httptest"
 	"net/url"
 	"sort"
 	"strings"
@@ -378,6 +380,162 @@ func (o *httpObs) c03(ids []string) {
 	}
 }
 
+// js runs a query script through POST /query (Content-Type application/x-javascript-query): the JavaScript
+// bindings Query / PagedQuery / FindById / GetDatasetChanges are observation points of C01-C03.
+func (o *httpObs) js(code string) ([]map[string]interface{}, error) {
+	b, _ := json.Marshal(map[string]string{"query": base64.StdEncoding.EncodeToString([]byte(code))})
+	req := httptest.NewRequest(http.MethodPost, "/query", bytes.NewReader(b))
+	req.Header.Set("Content-Type", "application/x-javascript-query")
+	rec := httptest.NewRecorder()
+	pn := ""
+	func() {
+		defer func() {
+			if r := recover(); r != nil {
+				pn = fmt.Sprint(r)
+			}
+		}()
+		o.w.ws.echo.ServeHTTP(rec, req)
+	}()
+	if pn != "" || rec.Code != 200 {
+		return nil, fmt.Errorf("javascript query: status %d %s %s", rec.Code, pn, short(rec.Body.String()))
+	}
+	var out []map[string]interface{}
+	if err := json.Unmarshal(rec.Body.Bytes(), &out); err != nil {
+		return nil, fmt.Errorf("javascript query answer undecodable: %v: %s", err, short(rec.Body.String()))
+	}
+	return out, nil
+}
+
+func jsList(l []string) string { b, _ := json.Marshal(l); return string(b) }
+
+// c03js: Query (unpaged) and PagedQuery (page size 1) through the JavaScript bindings.
+func (o *httpObs) c03js(ids []string) {
+	h := o.h
+	var live []string
+	for _, d := range h.M.LiveInOrder() {
+		live = append(live, d.Name)
+	}
+	scopes := [][]string{nil}
+	for _, n := range live {
+		scopes = append(scopes, []string{n})
+	}
+	for _, start := range ids {
+		for _, pred := range []string{"p", "*"} {
+			for _, inv := range []bool{false, true} {
+				for _, sc := range scopes {
+					want := map[string]bool{}
+					for e := range h.M.Graph(sc, -1) {
+						if pred != "*" && e.Pred != pred {
+							continue
+						}
+						if !inv && e.Src == start {
+							want[e.Pred+">"+e.Dst] = true
+						}
+						if inv && e.Dst == start {
+							want[e.Pred+">"+e.Src] = true
+						}
+					}
+					pu := "*"
+					if pred != "*" {
+						pu = h.KeyURI(pred)
+					}
+					var names []string
+					for _, n := range sc {
+						names = append(names, h.DsName(n))
+					}
+					if names == nil {
+						names = []string{}
+					}
+					scripts := map[string]string{
+						"Query": fmt.Sprintf(`function do_query() { var r = Query([%q], %q, %v, %s); if (r == null) { return; } for (var i = 0; i < r.length; i++) { WriteQueryResult({p: r[i][1], id: r[i][2].ID}); } }`,
+							h.URI(start), pu, inv, jsList(names)),
+						"PagedQuery": fmt.Sprintf(`function do_query() { PagedQuery({StartURIs: [%q], Via: %q, Inverse: %v, Datasets: %s}, 1, function(res) { for (var i = 0; i < res.length; i++) { WriteQueryResult({p: res[i].PredicateURI, id: res[i].RelatedEntity.ID}); } return true; }); }`,
+							h.URI(start), pu, inv, jsList(names)),
+					}
+					for name, code := range scripts {
+						o.n++
+						res, err := o.js(code)
+						if err != nil {
+							o.fail("C03:js:error:"+name, err.Error())
+							continue
+						}
+						got := map[string]int{}
+						for _, r := range res {
+							p, _ := r["p"].(string)
+							id, _ := r["id"].(string)
+							got[h.AbsKey(p)+">"+h.AbsID(id)]++
+						}
+						same := len(got) == len(want)
+						for k, n := range got {
+							if !want[k] || n != 1 {
+								same = false
+							}
+						}
+						if !same {
+							dir := "out"
+							if inv {
+								dir = "in"
+							}
+							clause := fmt.Sprintf("C03:js:%s:%s/%s/%s/%v", name, start, pred, dir, sc)
+							if inv && pred == "*" && h.KFWildcardIncoming(start, sc, got, want) {
+								clause = "C03:KF-incoming-wildcard-multipred:js:" + clause
+							}
+							var gl, wl []string
+							for k, n := range got {
+								gl = append(gl, fmt.Sprintf("%s x%d", k, n))
+							}
+							for k := range want {
+								wl = append(wl, k)
+							}
+							sort.Strings(gl)
+							sort.Strings(wl)
+							o.fail(clause, fmt.Sprintf("JavaScript %s %s/%s/%s scope %v returns %v; the graph of latest versions gives %v", name, start, pred, dir, sc, gl, wl))
+						}
+					}
+				}
+			}
+		}
+	}
+}
+
+// c02js: GetDatasetChanges (latest-only by definition) paged with limit 1 and 2 from JavaScript.
+func (o *httpObs) c02js() {
+	h := o.h
+	for _, md := range h.M.LiveInOrder() {
+		want := md.LatestOnlyFeed()
+		for _, limit := range []int{0, 1, 2} {
+			o.n++
+			code := fmt.Sprintf(`function do_query() { var since = 0; for (var n = 0; n < 50; n++) { var c = GetDatasetChanges(%q, since, %d); if (c == null || c.Entities == null || c.Entities.length == 0) { break; } for (var i = 0; i < c.Entities.length; i++) { var e = c.Entities[i]; WriteQueryResult({id: e.ID, deleted: e.IsDeleted, props: e.Properties, refs: e.References}); } if (c.NextToken == since) { break; } since = c.NextToken; if (%d == 0) { break; } } }`,
+				h.DsName(md.Name), limit, limit)
+			res, err := o.js(code)
+			if err != nil {
+				o.fail("C02:js:error", err.Error())
+				continue
+			}
+			ok := len(res) == len(want)
+			var gl []string
+			for i, r := range res {
+				e := &server.Entity{}
+				b, _ := json.Marshal(map[string]interface{}{"id": r["id"], "deleted": r["deleted"], "props": r["props"], "refs": r["refs"]})
+				_ = json.Unmarshal(b, e)
+				if e.Properties == nil {
+					e.Properties = map[string]interface{}{}
+				}
+				if e.References == nil {
+					e.References = map[string]interface{}{}
+				}
+				gl = append(gl, h.AbsID(e.ID)+"="+h.AbsContent(e).String())
+				if ok && (h.AbsID(e.ID) != want[i].ID || !h.AbsContent(e).Equal(want[i].C)) {
+					ok = false
+				}
+			}
+			if !ok {
+				o.fail(fmt.Sprintf("C02:js:changes:%s:limit=%d", md.Name, limit), fmt.Sprintf("JavaScript GetDatasetChanges of %s (limit %d, tokens followed) gives %v; the latest-only feed is %v", md.Name, limit, gl, model.FeedStrings(want)))
+			}
+		}
+	}
+}
+
 func httpStoreReplay(task engine.SeqTask) (res engine.SeqResult) {
 	var p server.StoreParams
 	_ = json.Unmarshal(task.Params, &p)
@@ -414,8 +572,10 @@ func httpStoreReplay(task engine.SeqTask) (res engine.SeqResult) {
 			o.c01(p.IDs)
 		case "c02":
 			o.c02()
+			o.c02js()
 		case "c03":
 			o.c03(p.IDs)
+			o.c03js(p.IDs)
 		}
 	}
 	res.Key = h.Canon(append(append([]string{}, p.IDs...), "e4"), p.Datasets, "")
